@@ -46,6 +46,7 @@ type loopInfo struct {
 	rangeLen ssa.Value
 	rangeIt  ssa.Value // *ssa.Range for string/map loops
 	variant  *Term     // value of the decreases expression at the loop head
+	pre      *State    // state in which the loop was entered
 }
 
 type callSite struct {
@@ -532,6 +533,7 @@ func (a *act) cutLoop(li *loopInfo, pre *State, reach Term) (*State, Term) {
 	if li.mod == nil {
 		li.mod = a.discover(li, pre)
 	}
+	li.pre = pre.clone() // entry(e) in invariants of this loop
 	// invariants on entry
 	a.checkInvariants(li, pre, reach, "entry", li.head.Instrs[0].Pos())
 	// havoc
